@@ -44,7 +44,8 @@ def doc_case(case):
 
 
 def assign_case(case):
-    _, version, dt, value, valid, vlevel, declared = case
+    _, version, dt, value, valid, vlevel, declared = case[:7]
+    sibling = case[7] if len(case) > 7 else False
     fails = []
     seg = "S\tA\t*" if version == "gfa1" else "S\tA\t8\t*"
     if declared:
@@ -55,7 +56,14 @@ def assign_case(case):
                           reproducer="import gfapy\nl = gfapy.Line(%r, vlevel=%d)\nl.set('xx', %r)\nprint(str(l)); l.validate()" % (seg, vlevel, value)))
     try:
         l = gfapy.Line(seg, vlevel=vlevel)
-        if not declared:
+        if sibling:
+            # a detached copy gets a tag of the same name with a value of another kind first: the two lines are independent, the
+            # assignment to the original stays valid and writes what it writes without the copy
+            alone = gfapy.Line(seg, vlevel=vlevel); alone.set("xx", value); want_text = str(alone)
+            copy = l.clone()
+            copy.set("xx", "s" if isinstance(value, (int, float)) else 7)
+            copy_text = str(copy)
+        elif not declared:
             l.set_datatype("xx", dt)
     except Exception as e:
         fail("setup-raises-%s" % type(e).__name__, harness.short(e, 100))
@@ -85,7 +93,9 @@ def assign_case(case):
     vf_ok = attempt("validate_field", lambda: l.validate_field("xx")) if s_ok else None
     if valid:
         if stage is not None:
-            fail("valid-assignment-rejected:%s:level%d:%s" % (dt, vlevel, stage), "%r" % (value,))
+            fail("valid-assignment-rejected:%s:level%d:%s%s" % (dt, vlevel, stage, ":after-assignment-to-a-clone" if sibling else ""), "%r" % (value,))
+        elif sibling and (str(l) != want_text or str(copy) != copy_text):
+            fail("assignment-depends-on-a-clone:%s:level%d" % (dt, vlevel), "%r: wrote %r (alone %r); the copy %r (was %r)" % (value, str(l), want_text, str(copy), copy_text))
     else:
         if vlevel >= 3 and s_ok:
             fail("invalid-assignment-not-reported-at-set:%s" % dt, "%r" % (value,))
@@ -121,6 +131,8 @@ def cases(tier, seed):
                         out.append(("assign", version, dt, v, True, vlevel, declared))
                     for v in bad:
                         out.append(("assign", version, dt, v, False, vlevel, declared))
+                for v in good:
+                    out.append(("assign", version, dt, v, True, vlevel, False, True))
     return out
 
 
@@ -130,6 +142,6 @@ if __name__ == "__main__":
     res = harness.run(cs, check,
                       rule="(a) catalogue documents and every tag datatype x value pool at vlevel 0,1,2,3: acceptance monotone (accepted at k => accepted at k-1), same canonical content, same text; "
                            "(b) assignment programs: for every tag datatype, valid and invalid Python values are set on a declared / newly typed tag at each level, then written, validated and field-validated: "
-                           "a valid value is never rejected; an invalid one is reported at set (level 3), at the latest at write (level 2), and by validate()/validate_field() at every level",
+                           "a valid value is never rejected (also when a clone of the line was given a tag of that name with another kind of value first), and writes the same text; an invalid one is reported at set (level 3), at the latest at write (level 2), and by validate()/validate_field() at every level",
                       bound="single assignment per line; documents <=%d primary lines" % (2 if tier == "quick" else 3), exhaustive=False)
     harness.emit(res)
